@@ -73,11 +73,16 @@ pub open spec fn terminal_def_view(te: TerminalEnum, o: validated::TerminalEnum)
 ///
 /// If it finds exactly one `terminal` statement, it returns
 /// **without** any further validation.
-//@[ T13: outlined selection (current /repo tokens; body not verified, contract assumed)
-#[verifier::external_body]
-fn __vx_select_terminals<'a>(file: &'a File) -> (r: Vec<&'a TerminalEnum>)
-    ensures r@.len() == sel_terminals(file.items@).len(), forall|i: int| 0 <= i < r@.len() ==> *(#[trigger] r@[i]) == sel_terminals(file.items@)[i]
-{ /*@orig T13_select_terminals*/ }
+//@[ C10 lemma: the selection computed with filter_map is the list of terminal declarations
+pub open spec fn g_terminal<'a>(it: FileItem) -> Option<&'a TerminalEnum> { match it { FileItem::Terminal(t) => Some(&t), _ => None } }
+proof fn lemma_select_terminals<'a>(items: Seq<FileItem>, g: spec_fn(FileItem) -> Option<&'a TerminalEnum>)
+    requires forall|it: FileItem| #[trigger] g(it) == g_terminal::<'a>(it)
+    ensures filter_map_spec(items, g).len() == sel_terminals(items).len(),
+        forall|i: int| 0 <= i < sel_terminals(items).len() ==> *(#[trigger] filter_map_spec(items, g)[i]) == sel_terminals(items)[i]
+    decreases items.len()
+{
+    if items.len() > 0 { lemma_select_terminals(items.drop_last(), g); }
+}
 //@]
 
 pub fn get_unvalidated_terminal_enum(file: &File) -> /*@[*/(r: /*@]*/Result<&TerminalEnum, KikiErr>/*@[*/)/*@]*/
@@ -88,14 +93,21 @@ pub fn get_unvalidated_terminal_enum(file: &File) -> /*@[*/(r: /*@]*/Result<&Ter
     },
     //@]
 {
-    let terminals: Vec<&TerminalEnum> = /*@{ T13_select_terminals*//*@- file
+    let terminals: Vec<&TerminalEnum> = /*@{ T18_open*//*@- file
         .items
         .iter()
-        .filter_map(|item| match item {
+        .filter_map( *//*@|*/__vx_filter_map_collect(&file.items, /*@}*/|item/*@[*/: &FileItem/*@]*/| /*@[*/-> (o: Option<&TerminalEnum>) ensures o == g_terminal(*item) { /*@]*/match item {
             FileItem::Terminal(t) => Some(t),
             _ => None,
-        })
-        .collect() *//*@|*/__vx_select_terminals(file)/*@}*/;
+        }/*@[*/ }/*@]*//*@{ T18_close*//*@- )
+        .collect() *//*@|*/)/*@}*/;
+    //@[ proof
+    proof {
+        let lam = |it: FileItem| g_terminal(it);
+        assert(terminals@ == filter_map_spec(file.items@, lam));
+        lemma_select_terminals(file.items@, lam);
+    }
+    //@]
 
     if terminals.is_empty() {
         return Err(KikiErr::NoTerminalEnum);
